@@ -56,6 +56,7 @@ import (
 
 func TestMain(m *testing.M) {
 	legacykm.Register()
+	registerFakeKMS() // fake-kms:// key-encryption keys for KmsEnvelopeAeadKey keysets (envelope_test.go)
 	evid.Main(m)
 }
 
